@@ -290,7 +290,8 @@ class Driver:
     # -- steps ----------------------------------------------------------------
     def step_init(self, h):
         sb = self.sb
-        sb.reset(first_id=self.first_id)
+        # (a seventh of the projects live in a directory whose name has a bracket group, like "run[2]")
+        sb.reset(first_id=self.first_id, projname="run[2]" if self.variant % 7 == 5 else "proj")
         self.use_hash = bool(h["useHash"])
         self.local_trk = {}
         if self.backend == "local":
